@@ -80,7 +80,7 @@ Theorem C07_thumb32_ldh w : 0 <= w < 2 ^ 32 -> in_domains w rt_not_pc ->
   dec_thumb_load_halfword_memory_hints w = eval_leaf no_env None (lookup t32_ldh_table (LRet None) w) w.
 Proof. exact (dec_thumb32_ldh_table w). Qed.
 Print Assumptions C07_thumb32_ldh.
-Theorem C07_thumb32_ldb w : 0 <= w < 2 ^ 32 -> in_domains w rt_not_pc ->
+Theorem C07_thumb32_ldb w : 0 <= w < 2 ^ 32 ->
   dec_thumb_load_byte_memory_hints w = eval_leaf no_env_res (Val None) (lookup t32_ldb_table (LRet (Val None)) w) w.
 Proof. exact (dec_thumb32_ldb_table w). Qed.
 Print Assumptions C07_thumb32_ldb.
